@@ -51,8 +51,8 @@ Example c07_replay :
   let run := fold_left (λ st o, let r := step [] st.1 o in (r.1, (st.2 ++ [r.2])%list)) in
   let ops := [EConnect 0%nat "live" "cl" "" "" 60 None 10; ESubscribe "live" 1 [("#", 0)] 20;
               EConnect 0%nat "pub" "cp" "" "" 60 None 30;
-              EPublish "pub" (Publish "a" "1" 0 true) false 0 40; EPublish "pub" (Publish "a/b" "2" 0 true) false 0 50;
-              EPublish "pub" (Publish "a" "" 0 true) false 0 60;
+              EPublish "pub" (Publish "a" "1" 0 true false) false 0 40; EPublish "pub" (Publish "a/b" "2" 0 true false) false 0 50;
+              EPublish "pub" (Publish "a" "" 0 true false) false 0 60;
               EConnect 0%nat "late" "cx" "" "" 60 None 70; ESubscribe "late" 2 [("nothing/here", 0); ("a/#", 0)] 80] in
   let o := (run ops (cnew 1%nat, [])).2 in
   nth 3%nat o [] = [Appended 0%nat "_default/a" "1" 0 false; Deadline "pub" 120000; Out "live" (OPublish "a" "1" 0 false false 0)]
@@ -60,8 +60,8 @@ Example c07_replay :
 Proof. vm_compute. done. Qed.
 
 Example c07_history :
-  let os := [DRetSet (Publish "mp/a" "1" 0 true) 10; DRetSet (Publish "mp/a/b" "2" 1 true) 11; DRetSet (Publish "mp/a" "3" 0 true) 12;
-             DRetDelete "mp/a/b" 13; DRetSet (Publish "mp/b" "4" 0 true) 14] in
+  let os := [DRetSet (Publish "mp/a" "1" 0 true false) 10; DRetSet (Publish "mp/a/b" "2" 1 true false) 11; DRetSet (Publish "mp/a" "3" 0 true false) 12;
+             DRetDelete "mp/a/b" 13; DRetSet (Publish "mp/b" "4" 0 true false) 14] in
   map (λ r, p_payload (r_pub r)) (ret_get (drun (dnew 1) os) "mp/#") = ["3"; "4"]
   ∧ map (λ r, p_payload (r_pub r)) (ret_get (drun (dnew 1) os) "mp/+/b") = [].
 Proof. vm_compute. done. Qed.
